@@ -499,7 +499,8 @@ Definition run_C01 (inp : list Z) : list Z :=
   | Panic t => [(-2)%Z]
   end.
 
-(* C02: lookups.  Queries: 1 s = find, 2 a b = find_range, 3 txid vout = list, 4 s = rare_sat_satpoint.
+(* C02: lookups.  Queries: 1 s = find, 2 a b = find_range, 3 txid vout = list, 4 s = rare_sat_satpoint,
+   5 s = Sat::common + Epoch::from(Sat), 6 h = Height::subsidy + Height::starting_sat, 7 s = Sat::height.
    Before the explicit queries, find is evaluated on the first and last sat of every stored range. *)
 Definition w_find (r : Res (option satpoint)) : list Z :=
   match r with
@@ -539,6 +540,12 @@ Fixpoint answer (fuel : nat) (st : state) (q : list Z) : list Z :=
       | Some rs => 1%Z :: w_ranges rs
       end ++ answer f st r
     | 4%Z :: s :: r => w_opt_sp (rare st (nZ s)) ++ answer f st r
+    (* pure arithmetic of crates/ordinals, compared with the real functions over all epochs *)
+    | 5%Z :: s :: r => [zb (common (nZ s)); zN (epoch_of_sat (nZ s))] ++ answer f st r
+    | 6%Z :: h :: r => [zN (subsidy (nZ h)); zN (starting_sat (nZ h))] ++ answer f st r
+    | 7%Z :: s :: r =>
+      match sat_height (nZ s) with Ok h => [zN h] | Err e => [(-1)%Z] | Panic t => [(-2)%Z] end
+      ++ answer f st r
     | _ => []
     end
   end.
